@@ -78,7 +78,27 @@ func collisionKinds() []Item {
 // updatable reports whether an item can be the subject of a container update.
 func updatable(i Item) bool { return i.Kind == "scal" || i.Kind == "hp" || i.Kind == "uni" }
 
-type G struct{ r *rand.Rand }
+// echoC / echoRes: the container being created (or the spec being adjusted) and the resources the
+// plugins are shown; "echo" values let a plugin set a field to exactly the value it already has
+// (a claim that changes nothing is still a claim) and boundary values (0, "") hit "zero means unset" slips.
+type G struct {
+	r       *rand.Rand
+	echoC   *nm.Container
+	echoRes *nm.Res
+}
+
+// scalFor draws the value plugin tag sets for scalar field f.
+func (g *G) scalFor(f string, tag int) nm.SVal {
+	v := scalVal(f, tag, g.r)
+	if g.echoRes != nil && g.r.Intn(5) == 0 {
+		for _, cur := range g.echoRes.Scal {
+			if cur.F == f {
+				return cur
+			}
+		}
+	}
+	return v
+}
 
 func (g *G) pick(l []string) string { return l[g.r.Intn(len(l))] }
 
@@ -356,12 +376,23 @@ func (g *G) applyAction(a *nm.Adjust, act Action, tag int) {
 		if a.Res == nil {
 			a.Res = &nm.Res{}
 		}
-		a.Res.Scal = append(a.Res.Scal, scalVal(it.Key, tag, g.r))
+		a.Res.Scal = append(a.Res.Scal, g.scalFor(it.Key, tag))
 		sortScal(a.Res)
 	case "cgroups":
 		a.Cgroups = fmt.Sprintf("/cg/p%d", tag)
+		if g.echoC != nil && g.echoC.Cgroups != "" && g.r.Intn(5) == 0 {
+			a.Cgroups = g.echoC.Cgroups
+		}
 	case "oom":
 		a.Oom = i64(int64(tag*10 - 5))
+		switch g.r.Intn(6) {
+		case 0, 1:
+			a.Oom = i64(0) // an explicit 0 is a request, not "unset"
+		case 2:
+			if g.echoC != nil && g.echoC.Oom != nil {
+				a.Oom = i64(*g.echoC.Oom)
+			}
+		}
 	default:
 		panic("unknown item kind " + it.Kind)
 	}
@@ -384,7 +415,7 @@ func (g *G) addToRes(r *nm.Res, it Item, tag int) {
 		r.Uni = append(r.Uni, nm.KV{K: it.Key, V: fmt.Sprintf("p%d", tag)})
 		sort.Slice(r.Uni, func(i, j int) bool { return r.Uni[i].K < r.Uni[j].K })
 	case "scal":
-		r.Scal = append(r.Scal, scalVal(it.Key, tag, g.r))
+		r.Scal = append(r.Scal, g.scalFor(it.Key, tag))
 		sortScal(r)
 	}
 }
